@@ -55,6 +55,22 @@ def _long_token_cases(path):
     return n
 
 
+def _many_line_cases(path):
+    """Failures far down a text whose furthest TOKEN lies on an earlier line with a shorter line number: characters taken
+    by ANY, by the scan idiom or under a negative predicate are not tokens, so the position the help message is about can
+    lag behind the error's line - across the places where the line number gains a digit (9|10, 99|100)."""
+    with open(path, "w") as f:
+        text = ('doc = { "#" ~ (!"$" ~ ANY)* ~ EOI }\ndoca = @{ "#" ~ (!"$" ~ ANY)* ~ EOI }\nw = { "a" ~ NEWLINE* ~ "b" }\n'
+                'v = { "a" ~ (!"b" ~ ("\\n" | "x"))* ~ "b" ~ "c" }\nitem = { "k" }\nlist = { (item ~ NEWLINE)* ~ "end" }\n')
+        cases = []
+        for k in (0, 1, 2, 8, 9, 10, 11, 98, 99, 100):
+            nl = "\n" * k
+            for (start, inp) in (("doc", "#" + nl + "$"), ("doca", "#" + nl + "$"), ("doc", "#" + nl), ("w", "a" + nl + "c"), ("w", "a" + nl),
+                                 ("v", "a" + nl + "bd"), ("v", "a" + nl + "x" + nl + "c"), ("list", "k\n" * k + "en"), ("list", "k\n" * k + "k")):
+                cases.append({"start": start, "inp": [ord(c) for c in inp], "exp": {"k": "unknown"}})
+        f.write(json.dumps({"text": text, "cases": cases}) + "\n")
+
+
 def _history_cases(path):
     """The history-dependent report grammars of C08 (a match under `!` in an abandoned alternative, progress, then
     several attempts at the new position), and the same with the negated rule one level deeper."""
@@ -91,6 +107,14 @@ def run(ctx):
     cases = os.path.join(ctx.work, "long_tokens.ndjson")
     _long_token_cases(cases)
     out = os.path.join(ctx.work, "d_long.ndjson")
+    s = run_json([vh, "c15-emit", "--cases", cases, "--out", out], timeout=6000)
+    os.remove(cases)
+    for k in tot:
+        tot[k] += s[k]
+    batches.append(out)
+    cases = os.path.join(ctx.work, "manylines.ndjson")
+    _many_line_cases(cases)
+    out = os.path.join(ctx.work, "d_lines.ndjson")
     s = run_json([vh, "c15-emit", "--cases", cases, "--out", out], timeout=6000)
     os.remove(cases)
     for k in tot:
